@@ -26,6 +26,7 @@ Agree(x, y) ==
     /\ (y[1] # 0 => RDiv(RMul(sx, sy), sy) = sx)
     /\ RMul(sx, RAdd(sy, "1/3")) = RAdd(RMul(sx, sy), RMul(sx, "1/3"))
     /\ RSum(<<sx, sy, sx>>) = RAdd(RAdd(sx, sy), sx)
+    /\ RSort(<<sx, sy, "0", sx>>) = SortSeq(<<sx, sy, "0", sx>>, RLt)
     /\ RCanon(ToString(2 * x[1]) \o "/" \o ToString(2 * x[2])) = sx
     \* rounding to a binary mantissa: idempotent, monotone bracket, exact on dyadics
     /\ RRoundMant(RRoundMant(sx, 24), 24) = RRoundMant(sx, 24)
